@@ -53,6 +53,7 @@ RULES = {
     'R-DIRMODE': extra_rules.r_dirmode,
     'R-SYMTARGET': extra_rules.r_symtarget,
     'R-ROOTSCAN': extra_rules.r_rootscan,
+    'R-LEAFGUARD': extra_rules.r_leafguard,
 }
 
 
@@ -160,8 +161,9 @@ PROPS = {
                        'decide: continuity of the result, maximality of the head run.',
     },
     'C06': {
-        'rules': ['R-ACCUM', 'R-ARGPOS', 'R-DISCONT', 'R-ORDERED', 'R-MEMO', 'R-STATE'],
-        'filter': {'R-MEMO': site('grammar.', 'treeanalysis.', 'trees'),
+        'rules': ['R-ACCUM', 'R-ARGPOS', 'R-DISCONT', 'R-ORDERED', 'R-MEMO', 'R-STATE', 'R-LEAFGUARD'],
+        'filter': {'R-LEAFGUARD': site('treeanalysis.gap_degree_node', 'trees.terminal'),
+                   'R-MEMO': site('grammar.', 'treeanalysis.', 'trees'),
                    'R-STATE': both(rule('R-STATE/G1'), site('grammar', 'treeanalysis', 'trees')),
                    'R-ACCUM': site('grammar.extract'),
                    'R-ARGPOS': site('grammar.extract'),
@@ -207,8 +209,9 @@ PROPS = {
                        'tested literally and works on a copy. Does NOT decide: textual round trip of RCG/PMCFG.',
     },
     'C10': {
-        'rules': ['R-GUARD', 'R-ORDERED', 'R-STATE', 'R-FRAME', 'R-OPENMODE', 'R-ENC'],
-        'filter': {'R-OPENMODE': site('transitions.', 'transitionoutput.'),
+        'rules': ['R-GUARD', 'R-ORDERED', 'R-STATE', 'R-FRAME', 'R-OPENMODE', 'R-ENC', 'R-LEAFGUARD'],
+        'filter': {'R-LEAFGUARD': site('transitions.'),
+                   'R-OPENMODE': site('transitions.', 'transitionoutput.'),
                    'R-ENC': site('transitions.', 'transitionoutput.'),
                    'R-GUARD': rule('R-GUARD/GAP', 'R-GUARD/TOPDOWN', 'R-GUARD/PLAIN'),
                    'R-ORDERED': either(rule('R-ORDERED/DEF'), site('transitions.')),
@@ -255,8 +258,9 @@ PROPS = {
                        'that the new parent is the documented one.',
     },
     'C14': {
-        'rules': ['R-ROOT', 'R-LABELEDIT', 'R-GUARD', 'R-LINK', 'R-FLAGS', 'R-RECURSE', 'R-ORDERED', 'R-STATE', 'R-MEMO'],
-        'filter': {'R-RECURSE': site('transform.'),
+        'rules': ['R-ROOT', 'R-LABELEDIT', 'R-GUARD', 'R-LINK', 'R-FLAGS', 'R-RECURSE', 'R-ORDERED', 'R-STATE', 'R-MEMO', 'R-LEAFGUARD'],
+        'filter': {'R-LEAFGUARD': site('transform.'),
+                   'R-RECURSE': site('transform.'),
                    'R-STATE': both(rule('R-STATE/G1'), site('transform')),
                    'R-MEMO': site('transform'),
                    'R-ORDERED': both(rule('R-ORDERED/RAW'), site('transform.')),
@@ -286,8 +290,9 @@ PROPS = {
                        'and guards; presets and rejections; no state between calls. What remains is table content.',
     },
     'C16': {
-        'rules': ['R-DISCONT', 'R-ACCUM', 'R-FRAME', 'R-DISCOORDER', 'R-GUARD', 'R-ORDERED', 'R-REPORT', 'R-STATE', 'R-MEMO'],
-        'filter': {'R-STATE': both(rule('R-STATE/G1'), site('treeanalysis', 'trees')),
+        'rules': ['R-DISCONT', 'R-ACCUM', 'R-FRAME', 'R-DISCOORDER', 'R-GUARD', 'R-ORDERED', 'R-REPORT', 'R-STATE', 'R-MEMO', 'R-LEAFGUARD'],
+        'filter': {'R-LEAFGUARD': site('treeanalysis.', 'trees.terminal'),
+                   'R-STATE': both(rule('R-STATE/G1'), site('treeanalysis', 'trees')),
                    'R-MEMO': site('treeanalysis', 'trees'),
                    'R-ACCUM': site('treeanalysis.'),
                    'R-FRAME': both(rule('R-FRAME/PURE'), site('treeanalysis.', 'trees.')),
@@ -322,8 +327,9 @@ PROPS = {
                        'yield; label generators are per call. Does NOT decide: additivity as an equation.',
     },
     'C19': {
-        'rules': ['R-ORDERED', 'R-LEVELS', 'R-EXPNUM', 'R-NAV'],
-        'filter': {'R-ORDERED': either(rule('R-ORDERED/DEF'), site('trees.'))},
+        'rules': ['R-ORDERED', 'R-LEVELS', 'R-EXPNUM', 'R-NAV', 'R-LEAFGUARD'],
+        'filter': {'R-LEAFGUARD': site('trees.'),
+                   'R-ORDERED': either(rule('R-ORDERED/DEF'), site('trees.'))},
         'explanation': 'Decides only: children() sorts by leftmost token, terminals() by number; preorder/postorder yield '
                        'the node once before/after recursing over the ordered children; siblings use the ordered list; '
                        'levels are recorded for constituents only and aggregated with max; export numbers are a counter '
